@@ -290,6 +290,22 @@ def scene_case(spec):
     except Exception as e:   # the reference placement builds, the placed one must too
         pfail("placed_scene_raises", "building the placed scene raises %s: %s" % (type(e).__name__, e))
         return out
+    if multi:
+        # a nearest-sample lookup with two samples at (almost) the same angle -- e.g. a direction along the wall
+        # normal, which is equidistant from a whole ring -- is decided by the last bit of the stored direction
+        # set; the two placements store sets that agree to 1e-12, not bit for bit, so such a scene is a
+        # near-decision input for the comparison of placements (it is compared with the model elsewhere)
+        same_bits = all(
+            np.array_equal(np.array([x.cartesian for x in getattr(base, nm)]),
+                           np.array([x.cartesian for x in getattr(placed, nm)]))
+            for nm in ("_brdf_incoming_directions", "_brdf_outgoing_directions")) and np.array_equal(M, np.eye(3))
+        ties, other = P.scene_ties(base, src, recs, eps=1e-9, axis_exact=False)
+        ties2, other2 = P.scene_ties(placed, gsrc, grecs, eps=1e-9, axis_exact=False)
+        # bit-identical direction sets (and unrotated geometry) break every tie the same way in both placements
+        if (ties or other or ties2 or other2) and not same_bits:
+            out["rejected"] = 1
+            out["dist"]["rejected_lookup_tie"] = 1
+            return out
     tm = draw_timing(rng, cfg, [(base, src, recs), (placed, gsrc, grecs)])
     if tm is None:
         out["rejected"] = 1
